@@ -94,7 +94,7 @@ def main():
         if not skip_suite:
             rc, out = sh("go test -vet=off -count=1 ./pkg/... ./internal/... 2>&1 | grep -v 'no test files' | tail -15", cwd=wt)
             res["pkg_tests"] = {"rc": rc, "tail": out[-800:]}
-            root_touched = any("/" not in f for f in touched) or any(f.startswith("pkg/netpoll") or f.startswith("pkg/socket") or f.startswith("pkg/queue") or f.startswith("pkg/io") or f.startswith("internal") for f in touched)
+            root_touched = any("/" not in f for f in touched) or any(f.startswith("pkg/") or f.startswith("internal") for f in touched)
             if root_touched:
                 tags = "-tags gc_opt" if any("conn_matrix" in f for f in touched) else ("-tags poll_opt" if any("ultimate" in f for f in touched) else "")
                 # the multicast / bind-to-device tests need real interfaces: run them outside the namespace, the rest inside
